@@ -122,13 +122,18 @@ def audit(pid, modules):
 
 
 # ------------------------------------------------------------------ harness + driver
+RACE_REPORTS = [""]
+RACE = [False]   # set by do_check for properties decided under the race detector
+
+
 def build_harness():
     os.makedirs(BUILD, exist_ok=True)
     shutil.copyfile(os.path.join(REPO, "go.sum"), os.path.join(HARNESS, "go.sum"))
-    exe = os.path.join(BUILD, "hx")
+    exe = os.path.join(BUILD, "hx_race" if RACE[0] else "hx")
     if os.path.exists(exe):
         os.remove(exe)
-    rc, out = sh(["go", "build", "-tags", "verif", "-o", exe, "./cmd/hx"], cwd=HARNESS, env=GOENV, timeout=1800)
+    flags = ["-race"] if RACE[0] else []
+    rc, out = sh(["go", "build"] + flags + ["-tags", "verif", "-o", exe, "./cmd/hx"], cwd=HARNESS, env=GOENV, timeout=1800)
     return rc == 0, out
 
 
@@ -139,17 +144,24 @@ def driver_exe():
 def run_group(group, n, seed, tier, replay_file=None, preamble=None, keep_partial=False):
     """Run the harness (implementation) and the driver (model/spec) on the same op lines.
     Returns list of (op, impl, model, spec_or_None), stats dict, error text."""
-    exe = os.path.join(BUILD, "hx")
+    exe = os.path.join(BUILD, "hx_race" if RACE[0] else "hx")
     stats_file = os.path.join(BUILD, f"stats_{group}_{os.getpid()}.txt")
     cmd = [exe, "-group", group, "-n", str(n), "-seed", str(seed), "-tier", tier, "-stats", stats_file]
     if replay_file:
         cmd = [exe, "-replay", replay_file, "-stats", stats_file]
     env = dict(GOENV, GOMEMLIMIT="8GiB")
+    race_log = None
+    if RACE[0]:
+        rdir = os.path.join(BUILD, "race")
+        shutil.rmtree(rdir, ignore_errors=True)
+        os.makedirs(rdir)
+        race_log = os.path.join(rdir, "r")
+        env["GORACE"] = f"log_path={race_log} halt_on_error=0 exitcode=0 history_size=3"
     p = subprocess.run(cmd, stdout=subprocess.PIPE, stderr=subprocess.PIPE, env=env, text=True, timeout=7200)
     crash = None
     if p.returncode != 0:
         crash = f"harness exited {p.returncode}: {p.stderr[:1500]} ... {p.stderr[-500:]}"
-        if not keep_partial:
+        if not keep_partial or not p.stdout.strip():
             return [], {}, crash
     lines = [l for l in p.stdout.split("\n") if l and "\t" in l]
     ops = [l.split("\t") for l in lines]
@@ -177,6 +189,12 @@ def run_group(group, n, seed, tier, replay_file=None, preamble=None, keep_partia
             k, v = l.rsplit(" ", 1)
             stats[k] = int(v)
         os.remove(stats_file)
+    if race_log:
+        # keep the detector's full reports next to the results (they go into the replay file)
+        reps = []
+        for f in sorted(os.listdir(os.path.dirname(race_log))):
+            reps.append(open(os.path.join(os.path.dirname(race_log), f), errors="replace").read())
+        RACE_REPORTS[:] = ["\n".join(reps)[:20000]]
     return res, stats, crash
 
 
@@ -381,7 +399,7 @@ def crash_key(cfg, err):
     for key, rx in cfg.get("crash_signatures", []):
         if re.search(rx, err, re.S):
             return key
-    m = re.search(r"(panic: [^\n]*)", err)
+    m = re.search(r"((?:panic|fatal error): [^\n]*)", err)
     if not m:
         return None
     f = re.search(r"\n((?:github\.com/bluenviron/gomavlib|github\.com/pion)[^\s(]*)", err)
@@ -395,6 +413,7 @@ def classify(pid, cfg, op, impl, spec):
 
 def do_check(pid, cfg, tier, seed):
     t0 = time.time()
+    RACE[0] = bool(cfg.get("race"))
     lp = lean_phase(pid, cfg)
     okh, hout = build_harness()
     corr_problems = []
@@ -442,6 +461,7 @@ def do_check(pid, cfg, tier, seed):
             results += r
             for k, v in st.items():
                 stats[k] = stats.get(k, 0) + v
+    race_text = RACE_REPORTS[0] if RACE[0] else None
     if cfg.get("table_crosscheck") and results:
         # TIE-G cross-check: the struct tables extracted from the source text (go/ast) must equal what
         # reflect shows the running code (the defmsg lines of the harness), dialect by dialect.
@@ -481,7 +501,7 @@ def do_check(pid, cfg, tier, seed):
         path = write_replay(pid, dict(property=pid, kind="crash", seed=cseed, tier=tier, group=group, key=key,
                                       note="the process running the real code died (panic outside any recoverable frame); "
                                            "schedule dependent: replay re-runs the scenario group with this seed",
-                                      stderr=err, ops=[], setup=[]))
+                                      stderr=err, ops=[], setup=[], broken_obligations=lp["problems"] + corr_problems))
         violation = f"VIOLATION property={pid} replay={path}"
     elif spec_diffs:
         op, impl, model, spec = spec_diffs[0]
@@ -497,6 +517,7 @@ def do_check(pid, cfg, tier, seed):
         if r:
             op, impl, model, spec = r[-1]
         path = write_replay(pid, dict(property=pid, kind="counterexample", seed=seed, tier=tier,
+                                      race_reports=race_text,
                                       setup=[s for s in setup if needs_setup(s, op)], ops=[op],
                                       impl=impl, model=model, spec=spec,
                                       note="implementation answer differs from the specification on this input",
@@ -552,6 +573,7 @@ def needs_setup(setup_line, op):
 
 def do_replay(pid, cfg, path):
     rp = json.load(open(path))
+    RACE[0] = bool(cfg.get("race"))
     okh, hout = build_harness()
     lake_build(["mavdrv"])
     if not okh:
